@@ -47,6 +47,12 @@ type C03Case struct {
 	Decl      []int `json:"decl,omitempty"`
 	HeaderEnd int   `json:"header_end,omitempty"`
 	Enum      bool  `json:"enum,omitempty"` // part of the exhaustive sweeps
+	// Sched (multi-auto only): the call, goalign's parser goroutine, the consumer and the close of the file run under
+	// the seeded scheduler, and the error field is read twice: when the channel is closed, and when every goroutine
+	// has finished.
+	Sched     bool   `json:"sched,omitempty"`
+	SchedSeed uint64 `json:"sched_seed,omitempty"`
+	Policy    int    `json:"policy,omitempty"`
 }
 
 type c03 struct{}
@@ -431,6 +437,9 @@ func (c03) Gen(rs uint64, tier string, race bool) interface{} {
 	c.Parser = c03Parsers[r.Intn(len(c03Parsers))]
 	c.Ignore = r.Pick(align.IGNORE_NONE, align.IGNORE_NONE, align.IGNORE_NAME, align.IGNORE_SEQUENCE)
 	c.Alphabet = r.Pick(align.BOTH, align.BOTH, align.NUCLEOTIDS, align.AMINOACIDS)
+	if c.Parser == "multi-auto" && r.Chance(0.1) {
+		c.Sched, c.SchedSeed, c.Policy = true, r.U64(), r.Pick(PolUniform, PolSticky, PolPCT, PolStarve, PolFIFO)
+	}
 	f := c03ValidFile(r, c03FormatOf(c.Parser))
 	if r.Chance(0.03) {
 		// a valid file of another format given to this parser
@@ -596,6 +605,8 @@ func (c03) EnumCase(tier string, i int) interface{} {
 // ---------------------------------------------------------------------
 
 type parseResult struct {
+	errLate  error // multi-auto under the scheduler: the error field once every goroutine has finished
+	settled  bool  // errLate was read
 	als   []align.Alignment // alignments returned (nil entries allowed: reported as such)
 	bag   align.SeqBag
 	ps    *align.PartitionSet
@@ -604,8 +615,46 @@ type parseResult struct {
 	eos   bool // phylip: (nil, nil)
 }
 
-func c03Parse(c *C03Case, f *simFile) (res parseResult) {
+func c03Parse(ctx *Ctx, c *C03Case, f *simFile) (res parseResult) {
 	var r io.Reader = f
+	if c.Parser == "multi-auto" && c.Sched {
+		res.multi = true
+		var ach *align.AlignChannel
+		var callErr error
+		f.park = func() { verifrt.Yield("read@simfile") }
+		f.parkClose = func() { verifrt.Yield("close@simfile") }
+		sr := RunSched(ctx.T, SchedCfg{Seed: c.SchedSeed, Policy: c.Policy, MaxSteps: 300000}, func() {
+			ac, _, err := utils.ParseMultiAlignmentsAuto(f, bufio.NewReader(r), false, c.Alphabet)
+			if err != nil {
+				callErr = err
+				return
+			}
+			for al := range ac.Achan {
+				verifrt.Yield("consume@harness")
+				res.als = append(res.als, al)
+			}
+			res.err = ac.Err // what a consumer reads when the channel is closed
+			ach = ac
+		})
+		for _, p := range sr.Panics {
+			if p.Exit >= 0 {
+				panic(verifrt.ExitPanic{Code: p.Exit})
+			}
+			if strings.Contains(p.Panic, "readBudget") {
+				panic(panicInfo{readBudget{}, p.Stack})
+			}
+			panic(panicInfo{p.Panic, p.Stack})
+		}
+		if sr.Deadlock || sr.Budget || !sr.RootDone {
+			panic(panicInfo{fmt.Sprintf("the stream of alignments never ends: deadlock=%v budget=%v after %d scheduler steps", sr.Deadlock, sr.Budget, sr.Steps), "goroutine dump:\n" + sr.Stacks + "\ngithub.com/evolbioinfo/goalign/io/utils.ParseMultiAlignmentsAuto(...)\n"})
+		}
+		if callErr != nil {
+			res.err = callErr
+			return
+		}
+		res.errLate, res.settled = ach.Err, true
+		return
+	}
 	switch c.Parser {
 	case "fasta":
 		al, err := fasta.NewParser(r).IgnoreIdentical(c.Ignore).Alphabet(c.Alphabet).Parse()
@@ -893,7 +942,7 @@ func (c03) Run(ctx *Ctx, ci interface{}) (o Outcome) {
 				}
 			}
 		}()
-		res = c03Parse(c, f)
+		res = c03Parse(ctx, c, f)
 	}()
 	o.Add("stream_reads", int64(f.reads))
 	o.Add("stream_bytes_delivered", int64(f.pos))
@@ -901,14 +950,25 @@ func (c03) Run(ctx *Ctx, ci interface{}) (o Outcome) {
 		o.Add("outcome_"+outcome, 1)
 		return
 	}
+	fail := func(class, format string, a ...interface{}) {
+		o.Fail(class+":"+c.Parser, format+"\n%s", append(a, c.describe())...)
+	}
+	if res.settled {
+		// the verdict a consumer reads when the channel is closed is the verdict: it may neither vanish nor appear later
+		o.Add("multi_auto_scheduled_runs", 1)
+		if (res.err == nil) != (res.errLate == nil) {
+			fail("error-field-changes-after-close", "when the channel of alignments is closed the error field says %v; once the parser goroutine has finished (file closed) it says %v", res.err, res.errLate)
+			return
+		}
+		if !f.closed {
+			o.Add("observed_file_left_open", 1)
+		}
+	}
 	if res.err != nil {
 		o.Add("outcome_error", 1)
 		if !res.multi {
 			return
 		}
-	}
-	fail := func(class, format string, a ...interface{}) {
-		o.Fail(class+":"+c.Parser, format+"\n%s", append(a, c.describe())...)
 	}
 	switch {
 	case c.Parser == "partition":
